@@ -171,6 +171,11 @@ def register(w):
         r, v = c.result, c["value_or_name"]
         if isinstance(v, VNone):
             return z3.BoolVal(isinstance(r, VNone))      # no value: no producer
+        if isinstance(r, VNone) and isinstance(v, VRef):
+            # None only when no node of `nodes` has the value among its outputs (the fallback scans every node of the list)
+            nodes = c["nodes"]
+            k = z3.Int("k!pn0")
+            return z3.ForAll([k], z3.Implies(z3.And(0 <= k, k < nodes.length), z3.Not(G.produces(c.ex, z3.Select(nodes.arrs[0], k), v.term))))
         if isinstance(r, VNone) or not isinstance(v, VRef):
             return z3.BoolVal(True)
         nodes = c["nodes"]
